@@ -2,6 +2,20 @@ use wac_graph::types::{ItemKind, Package, Types};
 
 pub fn run(args: &[String]) {
     let which = args.first().map(|s| s.as_str()).unwrap_or("uses");
+    if which == "bytes-case" {
+        let tier = mc_core::Tier::Quick;
+        let all = crate::c14_bytes::seeds(tier);
+        let si: usize = args[1].parse().unwrap();
+        let k: usize = args[2].parse().unwrap();
+        let m = crate::c14_bytes::nth_case(&all[si], tier, k);
+        let bytes = crate::c14_bytes::apply(&all[si].bytes, &m);
+        std::panic::set_hook(Box::new(|i| eprintln!("PANIC {i}\n{}", std::backtrace::Backtrace::force_capture())));
+        println!("{}", wasmprinter::print_bytes(&bytes).unwrap_or_else(|e| format!("<unprintable: {e}>")));
+        let mut types = Types::default();
+        let r = Package::from_bytes("t:pkg", None, bytes, &mut types);
+        println!("{:?}", r.map(|_| ()));
+        return;
+    }
     if which == "uses" {
         for spec in crate::c01::lib_t() {
             let mut types = Types::default();
